@@ -496,6 +496,13 @@ def _func(e, env):
                 # SQLite max(X,Y,..), MySQL/Oracle GREATEST: NULL if any argument is NULL
                 res = SV(x.sort, z3.If(c, x.t, y.t), z3.Or(x.n, y.n))
         return res
+    if name == 'mod' and len(a) == 2:
+        # Oracle MOD(n2, n1): "returns n2 if n1 is 0"; sign follows the dividend (uses FLOOR only in REMAINDER's sibling, not here)
+        x, y = unify(a[0], a[1])
+        if x.sort == 'bool': x, y = to_int(x), to_int(y)
+        if x.sort != 'int': raise Unmodelled('mod of %s' % x.sort)
+        yy = z3.If(y.t == 0, z3.IntVal(1), y.t)
+        return SV('int', z3.If(y.t == 0, x.t, tmod(x.t, yy)), z3.Or(x.n, y.n))
     if name in ('upper', 'py_upper'):
         v = a[0]
         if v.sort == 'null': return v
